@@ -245,11 +245,14 @@ fn render_line(
             if kind == LuaTokenKind::TkDocContinueOr {
                 raw = normalize_continue_or_prefix(ctx, &raw);
 
-                if !body_has_leading_whitespace(&body) && !body.is_empty() {
+                // The text after the bar may carry its own leading space (it is one trivia token
+                // in tag descriptions); adding another one shifted the line on every pass.
+                if !body_starts_with_whitespace(&body) && !body.is_empty() {
                     body.insert(0, ir::space());
                 }
             }
-            let body_has_ws = body_has_leading_whitespace(&body);
+            let body_has_ws = body_has_leading_whitespace(&body)
+                || (kind == LuaTokenKind::TkDocContinueOr && body_starts_with_whitespace(&body));
             if body_has_ws {
                 docs.push(ir::text(&raw));
                 if let Some(g) = gap
@@ -285,6 +288,16 @@ fn body_has_leading_whitespace(body: &[DocIR]) -> bool {
     match body.first() {
         Some(DocIR::Space) => true,
         Some(DocIR::Text(t)) => !t.is_empty() && t.chars().all(|c| c == ' ' || c == '\t'),
+        _ => false,
+    }
+}
+
+fn body_starts_with_whitespace(body: &[DocIR]) -> bool {
+    let starts_blank = |text: &str| text.starts_with([' ', '\t']);
+    match body.first() {
+        Some(DocIR::Space) => true,
+        Some(DocIR::Text(t)) => starts_blank(t),
+        Some(DocIR::SourceToken(t)) => starts_blank(t.text()),
         _ => false,
     }
 }
